@@ -612,3 +612,39 @@ def near_miss_names(rng, pieces, per_text=6):
         ps[j] = (k, v.encode())
         out.append((k, text_of(ps)))
     return out
+
+
+def one_fault_tree(rng):
+    """A tree inside C14's hypotheses except for exactly one fault (for model correspondence at the
+    border of the hypotheses): `??`, a comment inside an inline type, an empty enum, a name or a
+    comment text outside its class."""
+    for _ in range(50):
+        tree = gen_build_tree(rng, "wf_nocommentedenum")
+        sites = []
+
+        def walk(x):
+            if isinstance(x, dict):
+                if x.get("t") == "opt":
+                    sites.append(lambda x=x: x.__setitem__("i", {"t": "opt", "i": x["i"]}))
+                if x.get("t") == "struct" and x["fs"]:
+                    sites.append(lambda x=x: rng.choice(x["fs"])["comments"].append(comment_text(rng)))
+                if x.get("t") == "enum":
+                    sites.append(lambda x=x: rng.choice(x["vs"])["comments"].append(comment_text(rng)))
+                    sites.append(lambda x=x: x.__setitem__("vs", []))
+                if x.get("k") == "enum":
+                    sites.append(lambda x=x: x.__setitem__("variants", []))
+                for k in ("name", "n"):
+                    if k in x:
+                        sites.append(lambda x=x, k=k: x.__setitem__(k, b(rng.choice(BAD_NAMES))))
+                if "comments" in x:
+                    sites.append(lambda x=x: x["comments"].append(b(rng.choice(BAD_COMMENTS))))
+                for v in x.values():
+                    walk(v)
+            elif isinstance(x, list):
+                for v in x:
+                    walk(v)
+        walk(tree)
+        if sites:
+            rng.choice(sites)()
+            return tree
+    return tree
